@@ -11,7 +11,10 @@
 (* `bad` is the Obs verdict evaluated inside the model.                     *)
 (***************************************************************************)
 EXTENDS Integers, Sequences, TLC
-CONSTANTS Enable, Runs, MaxTrig, MaxGet, ResetAtStart, MaxFid, NSets
+CONSTANTS Enable, Runs, MaxTrig, MaxGet, ResetAtStart, MaxFid, NSets,
+          Toggle,       \* TRUE: every simcam_set switches the software trigger over (off fires the trigger first, as the code does)
+          ClearAlways   \* TRUE: the streamer clears `triggered` with every exposure (the code); FALSE: only while the trigger is
+                        \* enabled (seeded variant C18i, for the self-test of the re-gating rule)
 (* --algorithm Cam {
 variables
   is_running = FALSE, triggered = FALSE, frame_wanted = FALSE,
@@ -22,7 +25,10 @@ variables
   stopping = FALSE, getPending = FALSE, inCall = FALSE,
   \* handshake between simcam_set and the streamer (guarded by the lock): a set waits for the frame in flight,
   \* the streamer starts no frame while a set waits; waitI = sleepers on streamer.idle
-  is_rendering = FALSE, set_pending = 0, waitI = {}, setting = FALSE;
+  is_rendering = FALSE, set_pending = 0, waitI = {}, setting = FALSE,
+  \* the trigger setting (Enable = its initial value) and the ghost state of SimCamStreamObs' trigger rules
+  enable = Enable, gated = Enable, oInCall = FALSE, callNew = FALSE, fresh = 3,
+  re_on = FALSE, re_allow = 0, re_got = 0, re_trigs = 0;   \* (the ghost state moves only in Toggle configurations)
 macro Acquire(me) { await lock = "none"; lock := me; }
 macro Release() { lock := "none"; }
 
@@ -34,8 +40,8 @@ T1: sfid := frame_id;
 L0: while (is_running) {
 L1:   Acquire("S");
 L1s:  if (set_pending > 0) { lock := "none"; waitI := waitI \cup {"S"}; goto L1w; };
-L2:   if (Enable /\ ~triggered) { lock := "none"; waitT := TRUE; goto L2w; }
-      else { triggered := FALSE; is_rendering := TRUE; lock := "none"; goto L3; };
+L2:   if (enable /\ ~triggered) { lock := "none"; waitT := TRUE; goto L2w; }
+      else { triggered := IF ClearAlways \/ enable THEN FALSE ELSE triggered; is_rendering := TRUE; lock := "none"; goto L3; };
 L1w:  await "S" \notin waitI;
 L1r:  Acquire("S"); goto L1s;
 L2w:  await ~waitT;
@@ -58,18 +64,22 @@ variables k = 0;
 {
 C0: while (run < Runs) {
       \* simcam_start (client contract: no frame call of the previous run still in flight)
-      await ~inCall;
+      \* ... and, with Toggle, no simcam_set in progress: one client thread configures and starts (as acquire_configure /
+      \* acquire_start do); the trace spec reads the trigger setting of a run at its StartCall
+      await ~inCall /\ (~Toggle \/ pc["Z"] \in {"Z0", "Done"});
       run := run + 1; is_running := TRUE; last_emitted := -1; frame_id := -1; ntrig := 0; ndeliv := 0; lastHw := -1;
       if (ResetAtStart) { triggered := FALSE; frame_wanted := FALSE; };
+      gated := enable; fresh := 3; callNew := FALSE; re_on := FALSE;
       alive := TRUE; k := 0;
 C1:   while (k < MaxTrig) {
          either { \* execute_trigger : one critical section
 C2:        await lock = "none";
-           frame_wanted := TRUE; triggered := TRUE; waitT := FALSE; ntrig := ntrig + 1; k := k + 1; }
+           frame_wanted := TRUE; triggered := TRUE; waitT := FALSE; ntrig := ntrig + 1; k := k + 1;
+           if (Toggle) { fresh := 0; callNew := FALSE; re_trigs := IF re_on THEN re_trigs + 1 ELSE re_trigs; }; }
          or { k := MaxTrig; };
       };
       \* simcam_stop
-C3:   stopping := TRUE; is_running := FALSE;
+C3:   stopping := TRUE; is_running := FALSE; re_on := FALSE;
 C4:   await lock = "none";
       frame_wanted := TRUE; triggered := TRUE; waitT := FALSE;
 C5:   waitF := FALSE;           \* notify frame_ready without the lock
@@ -79,16 +89,27 @@ C6:   await ~alive;             \* join
 C9: run := Runs + 1;
 }
 
-\* simcam_set with unchanged settings, called by a second client thread at any time (NSets times)
+\* simcam_set, called by a second client thread at any time (NSets times): with unchanged settings, or (Toggle) switching
+\* the software trigger over each time. Disabling fires the trigger first, in a critical section of its own.
 fair process (Setter = "Z")
-variables z = 0;
+variables z = 0, v = FALSE;
 {
 Z0: while (z < NSets) {
+      v := IF Toggle THEN ~enable ELSE enable;
+Zc:   \* (SetTrigCall in the trace: a disabling set ends the gated period and may leave a trigger latched)
+      if (~v) { gated := FALSE; re_on := FALSE;
+                if (enable) { fresh := 0; callNew := FALSE; }; };
+Zt:   if (enable /\ ~v) { await lock = "none"; frame_wanted := TRUE; triggered := TRUE; waitT := FALSE; };
 Z1:   Acquire("Z"); setting := TRUE; set_pending := set_pending + 1;
 Z2:   if (is_rendering) { lock := "none"; waitI := waitI \cup {"Z"}; goto Z2w; } else { goto Z3; };
 Z2w:  await "Z" \notin waitI;
 Z2r:  Acquire("Z"); goto Z2;
 Z3:   set_pending := set_pending - 1;      \* (properties and buffers are replaced here)
+      \* (SetTrig in the trace) the trigger enabled while the camera runs: what may still come without a trigger
+      if (v /\ ~enable /\ is_running) {
+        re_on := TRUE; re_got := 0; re_trigs := 0;
+        re_allow := 2 + (IF fresh >= 3 THEN 0 ELSE 1); };
+      enable := v;
       waitI := {}; lock := "none"; setting := FALSE; z := z + 1;
     };
 }
@@ -98,8 +119,8 @@ variables g = 0, res = "none";
 {
 G0: while (g < MaxGet /\ run <= Runs) {
       await is_running \/ run > Runs;      \* HAL: only called while the camera is Running
-      if (run > Runs) { goto GX; } else { inCall := TRUE; };
-G1:   if (~is_running) { res := "err"; goto G5; };     \* CHECK(self->streamer.is_running)
+      if (run > Runs) { goto GX; } else { inCall := TRUE; if (Toggle) { oInCall := TRUE; callNew := TRUE; }; };
+G1:   if (~is_running) { res := "err"; oInCall := FALSE; goto G5; };     \* CHECK(self->streamer.is_running)
 G2:   Acquire("G");
       frame_wanted := TRUE; getPending := TRUE;
 G3:   if (is_running /\ last_emitted >= frame_id) { lock := "none"; waitF := TRUE; goto G3w; } else { goto G4; };
@@ -111,9 +132,12 @@ G4:   last_emitted := frame_id;
              if (~ResetAtStart) { bad := "StaleFrameReturned"; } }
       else { res := "data";
              bad := IF frame_id <= lastHw THEN "NotIncreasing"
-                    ELSE IF Enable /\ ndeliv + 1 > ntrig THEN "FrameWithoutTrigger" ELSE bad;
-             lastHw := frame_id; ndeliv := ndeliv + 1; };
-      getPending := FALSE; lock := "none";
+                    ELSE IF gated /\ ndeliv + 1 > ntrig THEN "FrameWithoutTrigger"
+                    ELSE IF re_on /\ re_got + 1 > re_allow + re_trigs THEN "FrameWithoutTriggerAfterEnable" ELSE bad;
+             lastHw := frame_id; ndeliv := ndeliv + 1;
+             re_got := IF re_on THEN re_got + 1 ELSE re_got;
+             fresh := IF Toggle /\ callNew /\ fresh < 3 THEN fresh + 1 ELSE fresh; };
+      getPending := FALSE; oInCall := FALSE; lock := "none";
 G5:   g := g + 1; inCall := FALSE;
     };
 GX: skip;
@@ -123,12 +147,14 @@ GX: skip;
 VARIABLES pc, is_running, triggered, frame_wanted, frame_id, last_emitted, 
           sfid, lock, waitT, waitF, alive, run, ntrig, ndeliv, lastHw, bad, 
           stopping, getPending, inCall, is_rendering, set_pending, waitI, 
-          setting, k, z, g, res
+          setting, enable, gated, oInCall, callNew, fresh, re_on, re_allow, 
+          re_got, re_trigs, k, z, v, g, res
 
 vars == << pc, is_running, triggered, frame_wanted, frame_id, last_emitted, 
            sfid, lock, waitT, waitF, alive, run, ntrig, ndeliv, lastHw, bad, 
            stopping, getPending, inCall, is_rendering, set_pending, waitI, 
-           setting, k, z, g, res >>
+           setting, enable, gated, oInCall, callNew, fresh, re_on, re_allow, 
+           re_got, re_trigs, k, z, v, g, res >>
 
 ProcSet == {"S"} \cup {"C"} \cup {"Z"} \cup {"G"}
 
@@ -155,10 +181,20 @@ Init == (* Global variables *)
         /\ set_pending = 0
         /\ waitI = {}
         /\ setting = FALSE
+        /\ enable = Enable
+        /\ gated = Enable
+        /\ oInCall = FALSE
+        /\ callNew = FALSE
+        /\ fresh = 3
+        /\ re_on = FALSE
+        /\ re_allow = 0
+        /\ re_got = 0
+        /\ re_trigs = 0
         (* Process Controller *)
         /\ k = 0
         (* Process Setter *)
         /\ z = 0
+        /\ v = FALSE
         (* Process Caller *)
         /\ g = 0
         /\ res = "none"
@@ -175,7 +211,9 @@ T0 == /\ pc["S"] = "T0"
       /\ UNCHANGED << is_running, triggered, frame_wanted, frame_id, 
                       last_emitted, sfid, lock, waitT, waitF, alive, run, 
                       ntrig, ndeliv, lastHw, bad, stopping, getPending, inCall, 
-                      is_rendering, set_pending, waitI, setting, k, z, g, res >>
+                      is_rendering, set_pending, waitI, setting, enable, gated, 
+                      oInCall, callNew, fresh, re_on, re_allow, re_got, 
+                      re_trigs, k, z, v, g, res >>
 
 T1 == /\ pc["S"] = "T1"
       /\ sfid' = frame_id
@@ -183,7 +221,9 @@ T1 == /\ pc["S"] = "T1"
       /\ UNCHANGED << is_running, triggered, frame_wanted, frame_id, 
                       last_emitted, lock, waitT, waitF, alive, run, ntrig, 
                       ndeliv, lastHw, bad, stopping, getPending, inCall, 
-                      is_rendering, set_pending, waitI, setting, k, z, g, res >>
+                      is_rendering, set_pending, waitI, setting, enable, gated, 
+                      oInCall, callNew, fresh, re_on, re_allow, re_got, 
+                      re_trigs, k, z, v, g, res >>
 
 L0 == /\ pc["S"] = "L0"
       /\ IF is_running
@@ -192,7 +232,9 @@ L0 == /\ pc["S"] = "L0"
       /\ UNCHANGED << is_running, triggered, frame_wanted, frame_id, 
                       last_emitted, sfid, lock, waitT, waitF, alive, run, 
                       ntrig, ndeliv, lastHw, bad, stopping, getPending, inCall, 
-                      is_rendering, set_pending, waitI, setting, k, z, g, res >>
+                      is_rendering, set_pending, waitI, setting, enable, gated, 
+                      oInCall, callNew, fresh, re_on, re_allow, re_got, 
+                      re_trigs, k, z, v, g, res >>
 
 L1 == /\ pc["S"] = "L1"
       /\ lock = "none"
@@ -201,7 +243,9 @@ L1 == /\ pc["S"] = "L1"
       /\ UNCHANGED << is_running, triggered, frame_wanted, frame_id, 
                       last_emitted, sfid, waitT, waitF, alive, run, ntrig, 
                       ndeliv, lastHw, bad, stopping, getPending, inCall, 
-                      is_rendering, set_pending, waitI, setting, k, z, g, res >>
+                      is_rendering, set_pending, waitI, setting, enable, gated, 
+                      oInCall, callNew, fresh, re_on, re_allow, re_got, 
+                      re_trigs, k, z, v, g, res >>
 
 L1s == /\ pc["S"] = "L1s"
        /\ IF set_pending > 0
@@ -213,23 +257,26 @@ L1s == /\ pc["S"] = "L1s"
        /\ UNCHANGED << is_running, triggered, frame_wanted, frame_id, 
                        last_emitted, sfid, waitT, waitF, alive, run, ntrig, 
                        ndeliv, lastHw, bad, stopping, getPending, inCall, 
-                       is_rendering, set_pending, setting, k, z, g, res >>
+                       is_rendering, set_pending, setting, enable, gated, 
+                       oInCall, callNew, fresh, re_on, re_allow, re_got, 
+                       re_trigs, k, z, v, g, res >>
 
 L2 == /\ pc["S"] = "L2"
-      /\ IF Enable /\ ~triggered
+      /\ IF enable /\ ~triggered
             THEN /\ lock' = "none"
                  /\ waitT' = TRUE
                  /\ pc' = [pc EXCEPT !["S"] = "L2w"]
                  /\ UNCHANGED << triggered, is_rendering >>
-            ELSE /\ triggered' = FALSE
+            ELSE /\ triggered' = (IF ClearAlways \/ enable THEN FALSE ELSE triggered)
                  /\ is_rendering' = TRUE
                  /\ lock' = "none"
                  /\ pc' = [pc EXCEPT !["S"] = "L3"]
                  /\ waitT' = waitT
       /\ UNCHANGED << is_running, frame_wanted, frame_id, last_emitted, sfid, 
                       waitF, alive, run, ntrig, ndeliv, lastHw, bad, stopping, 
-                      getPending, inCall, set_pending, waitI, setting, k, z, g, 
-                      res >>
+                      getPending, inCall, set_pending, waitI, setting, enable, 
+                      gated, oInCall, callNew, fresh, re_on, re_allow, re_got, 
+                      re_trigs, k, z, v, g, res >>
 
 L1w == /\ pc["S"] = "L1w"
        /\ "S" \notin waitI
@@ -237,8 +284,9 @@ L1w == /\ pc["S"] = "L1w"
        /\ UNCHANGED << is_running, triggered, frame_wanted, frame_id, 
                        last_emitted, sfid, lock, waitT, waitF, alive, run, 
                        ntrig, ndeliv, lastHw, bad, stopping, getPending, 
-                       inCall, is_rendering, set_pending, waitI, setting, k, z, 
-                       g, res >>
+                       inCall, is_rendering, set_pending, waitI, setting, 
+                       enable, gated, oInCall, callNew, fresh, re_on, re_allow, 
+                       re_got, re_trigs, k, z, v, g, res >>
 
 L1r == /\ pc["S"] = "L1r"
        /\ lock = "none"
@@ -247,7 +295,9 @@ L1r == /\ pc["S"] = "L1r"
        /\ UNCHANGED << is_running, triggered, frame_wanted, frame_id, 
                        last_emitted, sfid, waitT, waitF, alive, run, ntrig, 
                        ndeliv, lastHw, bad, stopping, getPending, inCall, 
-                       is_rendering, set_pending, waitI, setting, k, z, g, res >>
+                       is_rendering, set_pending, waitI, setting, enable, 
+                       gated, oInCall, callNew, fresh, re_on, re_allow, re_got, 
+                       re_trigs, k, z, v, g, res >>
 
 L2w == /\ pc["S"] = "L2w"
        /\ ~waitT
@@ -255,8 +305,9 @@ L2w == /\ pc["S"] = "L2w"
        /\ UNCHANGED << is_running, triggered, frame_wanted, frame_id, 
                        last_emitted, sfid, lock, waitT, waitF, alive, run, 
                        ntrig, ndeliv, lastHw, bad, stopping, getPending, 
-                       inCall, is_rendering, set_pending, waitI, setting, k, z, 
-                       g, res >>
+                       inCall, is_rendering, set_pending, waitI, setting, 
+                       enable, gated, oInCall, callNew, fresh, re_on, re_allow, 
+                       re_got, re_trigs, k, z, v, g, res >>
 
 L2r == /\ pc["S"] = "L2r"
        /\ lock = "none"
@@ -265,7 +316,9 @@ L2r == /\ pc["S"] = "L2r"
        /\ UNCHANGED << is_running, triggered, frame_wanted, frame_id, 
                        last_emitted, sfid, waitT, waitF, alive, run, ntrig, 
                        ndeliv, lastHw, bad, stopping, getPending, inCall, 
-                       is_rendering, set_pending, waitI, setting, k, z, g, res >>
+                       is_rendering, set_pending, waitI, setting, enable, 
+                       gated, oInCall, callNew, fresh, re_on, re_allow, re_got, 
+                       re_trigs, k, z, v, g, res >>
 
 L3 == /\ pc["S"] = "L3"
       /\ TRUE
@@ -273,7 +326,9 @@ L3 == /\ pc["S"] = "L3"
       /\ UNCHANGED << is_running, triggered, frame_wanted, frame_id, 
                       last_emitted, sfid, lock, waitT, waitF, alive, run, 
                       ntrig, ndeliv, lastHw, bad, stopping, getPending, inCall, 
-                      is_rendering, set_pending, waitI, setting, k, z, g, res >>
+                      is_rendering, set_pending, waitI, setting, enable, gated, 
+                      oInCall, callNew, fresh, re_on, re_allow, re_got, 
+                      re_trigs, k, z, v, g, res >>
 
 L3a == /\ pc["S"] = "L3a"
        /\ lock = "none"
@@ -283,7 +338,9 @@ L3a == /\ pc["S"] = "L3a"
        /\ UNCHANGED << is_running, triggered, frame_wanted, frame_id, 
                        last_emitted, sfid, lock, waitT, waitF, alive, run, 
                        ntrig, ndeliv, lastHw, bad, stopping, getPending, 
-                       inCall, set_pending, setting, k, z, g, res >>
+                       inCall, set_pending, setting, enable, gated, oInCall, 
+                       callNew, fresh, re_on, re_allow, re_got, re_trigs, k, z, 
+                       v, g, res >>
 
 L3b == /\ pc["S"] = "L3b"
        /\ sfid' = sfid + 1
@@ -291,7 +348,9 @@ L3b == /\ pc["S"] = "L3b"
        /\ UNCHANGED << is_running, triggered, frame_wanted, frame_id, 
                        last_emitted, lock, waitT, waitF, alive, run, ntrig, 
                        ndeliv, lastHw, bad, stopping, getPending, inCall, 
-                       is_rendering, set_pending, waitI, setting, k, z, g, res >>
+                       is_rendering, set_pending, waitI, setting, enable, 
+                       gated, oInCall, callNew, fresh, re_on, re_allow, re_got, 
+                       re_trigs, k, z, v, g, res >>
 
 L4 == /\ pc["S"] = "L4"
       /\ IF frame_wanted
@@ -300,7 +359,9 @@ L4 == /\ pc["S"] = "L4"
       /\ UNCHANGED << is_running, triggered, frame_wanted, frame_id, 
                       last_emitted, sfid, lock, waitT, waitF, alive, run, 
                       ntrig, ndeliv, lastHw, bad, stopping, getPending, inCall, 
-                      is_rendering, set_pending, waitI, setting, k, z, g, res >>
+                      is_rendering, set_pending, waitI, setting, enable, gated, 
+                      oInCall, callNew, fresh, re_on, re_allow, re_got, 
+                      re_trigs, k, z, v, g, res >>
 
 L5 == /\ pc["S"] = "L5"
       /\ lock = "none"
@@ -311,7 +372,8 @@ L5 == /\ pc["S"] = "L5"
       /\ UNCHANGED << is_running, triggered, last_emitted, sfid, lock, waitT, 
                       alive, run, ntrig, ndeliv, lastHw, bad, stopping, 
                       getPending, inCall, is_rendering, set_pending, waitI, 
-                      setting, k, z, g, res >>
+                      setting, enable, gated, oInCall, callNew, fresh, re_on, 
+                      re_allow, re_got, re_trigs, k, z, v, g, res >>
 
 TE == /\ pc["S"] = "TE"
       /\ alive' = FALSE
@@ -319,7 +381,9 @@ TE == /\ pc["S"] = "TE"
       /\ UNCHANGED << is_running, triggered, frame_wanted, frame_id, 
                       last_emitted, sfid, lock, waitT, waitF, run, ntrig, 
                       ndeliv, lastHw, bad, stopping, getPending, inCall, 
-                      is_rendering, set_pending, waitI, setting, k, z, g, res >>
+                      is_rendering, set_pending, waitI, setting, enable, gated, 
+                      oInCall, callNew, fresh, re_on, re_allow, re_got, 
+                      re_trigs, k, z, v, g, res >>
 
 TX == /\ pc["S"] = "TX"
       /\ TRUE
@@ -327,14 +391,16 @@ TX == /\ pc["S"] = "TX"
       /\ UNCHANGED << is_running, triggered, frame_wanted, frame_id, 
                       last_emitted, sfid, lock, waitT, waitF, alive, run, 
                       ntrig, ndeliv, lastHw, bad, stopping, getPending, inCall, 
-                      is_rendering, set_pending, waitI, setting, k, z, g, res >>
+                      is_rendering, set_pending, waitI, setting, enable, gated, 
+                      oInCall, callNew, fresh, re_on, re_allow, re_got, 
+                      re_trigs, k, z, v, g, res >>
 
 Streamer == T0 \/ T1 \/ L0 \/ L1 \/ L1s \/ L2 \/ L1w \/ L1r \/ L2w \/ L2r
                \/ L3 \/ L3a \/ L3b \/ L4 \/ L5 \/ TE \/ TX
 
 C0 == /\ pc["C"] = "C0"
       /\ IF run < Runs
-            THEN /\ ~inCall
+            THEN /\ ~inCall /\ (~Toggle \/ pc["Z"] \in {"Z0", "Done"})
                  /\ run' = run + 1
                  /\ is_running' = TRUE
                  /\ last_emitted' = -1
@@ -347,15 +413,20 @@ C0 == /\ pc["C"] = "C0"
                             /\ frame_wanted' = FALSE
                        ELSE /\ TRUE
                             /\ UNCHANGED << triggered, frame_wanted >>
+                 /\ gated' = enable
+                 /\ fresh' = 3
+                 /\ callNew' = FALSE
+                 /\ re_on' = FALSE
                  /\ alive' = TRUE
                  /\ k' = 0
                  /\ pc' = [pc EXCEPT !["C"] = "C1"]
             ELSE /\ pc' = [pc EXCEPT !["C"] = "C9"]
                  /\ UNCHANGED << is_running, triggered, frame_wanted, frame_id, 
                                  last_emitted, alive, run, ntrig, ndeliv, 
-                                 lastHw, k >>
+                                 lastHw, gated, callNew, fresh, re_on, k >>
       /\ UNCHANGED << sfid, lock, waitT, waitF, bad, stopping, getPending, 
-                      inCall, is_rendering, set_pending, waitI, setting, z, g, 
+                      inCall, is_rendering, set_pending, waitI, setting, 
+                      enable, oInCall, re_allow, re_got, re_trigs, z, v, g, 
                       res >>
 
 C1 == /\ pc["C"] = "C1"
@@ -369,7 +440,9 @@ C1 == /\ pc["C"] = "C1"
       /\ UNCHANGED << is_running, triggered, frame_wanted, frame_id, 
                       last_emitted, sfid, lock, waitT, waitF, alive, run, 
                       ntrig, ndeliv, lastHw, bad, stopping, getPending, inCall, 
-                      is_rendering, set_pending, waitI, setting, z, g, res >>
+                      is_rendering, set_pending, waitI, setting, enable, gated, 
+                      oInCall, callNew, fresh, re_on, re_allow, re_got, 
+                      re_trigs, z, v, g, res >>
 
 C2 == /\ pc["C"] = "C2"
       /\ lock = "none"
@@ -378,20 +451,29 @@ C2 == /\ pc["C"] = "C2"
       /\ waitT' = FALSE
       /\ ntrig' = ntrig + 1
       /\ k' = k + 1
+      /\ IF Toggle
+            THEN /\ fresh' = 0
+                 /\ callNew' = FALSE
+                 /\ re_trigs' = IF re_on THEN re_trigs + 1 ELSE re_trigs
+            ELSE /\ TRUE
+                 /\ UNCHANGED << callNew, fresh, re_trigs >>
       /\ pc' = [pc EXCEPT !["C"] = "C1"]
       /\ UNCHANGED << is_running, frame_id, last_emitted, sfid, lock, waitF, 
                       alive, run, ndeliv, lastHw, bad, stopping, getPending, 
-                      inCall, is_rendering, set_pending, waitI, setting, z, g, 
+                      inCall, is_rendering, set_pending, waitI, setting, 
+                      enable, gated, oInCall, re_on, re_allow, re_got, z, v, g, 
                       res >>
 
 C3 == /\ pc["C"] = "C3"
       /\ stopping' = TRUE
       /\ is_running' = FALSE
+      /\ re_on' = FALSE
       /\ pc' = [pc EXCEPT !["C"] = "C4"]
       /\ UNCHANGED << triggered, frame_wanted, frame_id, last_emitted, sfid, 
                       lock, waitT, waitF, alive, run, ntrig, ndeliv, lastHw, 
                       bad, getPending, inCall, is_rendering, set_pending, 
-                      waitI, setting, k, z, g, res >>
+                      waitI, setting, enable, gated, oInCall, callNew, fresh, 
+                      re_allow, re_got, re_trigs, k, z, v, g, res >>
 
 C4 == /\ pc["C"] = "C4"
       /\ lock = "none"
@@ -402,7 +484,8 @@ C4 == /\ pc["C"] = "C4"
       /\ UNCHANGED << is_running, frame_id, last_emitted, sfid, lock, waitF, 
                       alive, run, ntrig, ndeliv, lastHw, bad, stopping, 
                       getPending, inCall, is_rendering, set_pending, waitI, 
-                      setting, k, z, g, res >>
+                      setting, enable, gated, oInCall, callNew, fresh, re_on, 
+                      re_allow, re_got, re_trigs, k, z, v, g, res >>
 
 C5 == /\ pc["C"] = "C5"
       /\ waitF' = FALSE
@@ -410,7 +493,9 @@ C5 == /\ pc["C"] = "C5"
       /\ UNCHANGED << is_running, triggered, frame_wanted, frame_id, 
                       last_emitted, sfid, lock, waitT, alive, run, ntrig, 
                       ndeliv, lastHw, bad, stopping, getPending, inCall, 
-                      is_rendering, set_pending, waitI, setting, k, z, g, res >>
+                      is_rendering, set_pending, waitI, setting, enable, gated, 
+                      oInCall, callNew, fresh, re_on, re_allow, re_got, 
+                      re_trigs, k, z, v, g, res >>
 
 C6 == /\ pc["C"] = "C6"
       /\ ~alive
@@ -419,7 +504,9 @@ C6 == /\ pc["C"] = "C6"
       /\ UNCHANGED << is_running, triggered, frame_wanted, frame_id, 
                       last_emitted, sfid, lock, waitT, waitF, alive, run, 
                       ntrig, ndeliv, lastHw, bad, getPending, inCall, 
-                      is_rendering, set_pending, waitI, setting, k, z, g, res >>
+                      is_rendering, set_pending, waitI, setting, enable, gated, 
+                      oInCall, callNew, fresh, re_on, re_allow, re_got, 
+                      re_trigs, k, z, v, g, res >>
 
 C9 == /\ pc["C"] = "C9"
       /\ run' = Runs + 1
@@ -427,18 +514,57 @@ C9 == /\ pc["C"] = "C9"
       /\ UNCHANGED << is_running, triggered, frame_wanted, frame_id, 
                       last_emitted, sfid, lock, waitT, waitF, alive, ntrig, 
                       ndeliv, lastHw, bad, stopping, getPending, inCall, 
-                      is_rendering, set_pending, waitI, setting, k, z, g, res >>
+                      is_rendering, set_pending, waitI, setting, enable, gated, 
+                      oInCall, callNew, fresh, re_on, re_allow, re_got, 
+                      re_trigs, k, z, v, g, res >>
 
 Controller == C0 \/ C1 \/ C2 \/ C3 \/ C4 \/ C5 \/ C6 \/ C9
 
 Z0 == /\ pc["Z"] = "Z0"
       /\ IF z < NSets
-            THEN /\ pc' = [pc EXCEPT !["Z"] = "Z1"]
+            THEN /\ v' = IF Toggle THEN ~enable ELSE enable
+                 /\ pc' = [pc EXCEPT !["Z"] = "Zc"]
             ELSE /\ pc' = [pc EXCEPT !["Z"] = "Done"]
+                 /\ v' = v
       /\ UNCHANGED << is_running, triggered, frame_wanted, frame_id, 
                       last_emitted, sfid, lock, waitT, waitF, alive, run, 
                       ntrig, ndeliv, lastHw, bad, stopping, getPending, inCall, 
-                      is_rendering, set_pending, waitI, setting, k, z, g, res >>
+                      is_rendering, set_pending, waitI, setting, enable, gated, 
+                      oInCall, callNew, fresh, re_on, re_allow, re_got, 
+                      re_trigs, k, z, g, res >>
+
+Zc == /\ pc["Z"] = "Zc"
+      /\ IF ~v
+            THEN /\ gated' = FALSE
+                 /\ re_on' = FALSE
+                 /\ IF enable
+                       THEN /\ fresh' = 0
+                            /\ callNew' = FALSE
+                       ELSE /\ TRUE
+                            /\ UNCHANGED << callNew, fresh >>
+            ELSE /\ TRUE
+                 /\ UNCHANGED << gated, callNew, fresh, re_on >>
+      /\ pc' = [pc EXCEPT !["Z"] = "Zt"]
+      /\ UNCHANGED << is_running, triggered, frame_wanted, frame_id, 
+                      last_emitted, sfid, lock, waitT, waitF, alive, run, 
+                      ntrig, ndeliv, lastHw, bad, stopping, getPending, inCall, 
+                      is_rendering, set_pending, waitI, setting, enable, 
+                      oInCall, re_allow, re_got, re_trigs, k, z, v, g, res >>
+
+Zt == /\ pc["Z"] = "Zt"
+      /\ IF enable /\ ~v
+            THEN /\ lock = "none"
+                 /\ frame_wanted' = TRUE
+                 /\ triggered' = TRUE
+                 /\ waitT' = FALSE
+            ELSE /\ TRUE
+                 /\ UNCHANGED << triggered, frame_wanted, waitT >>
+      /\ pc' = [pc EXCEPT !["Z"] = "Z1"]
+      /\ UNCHANGED << is_running, frame_id, last_emitted, sfid, lock, waitF, 
+                      alive, run, ntrig, ndeliv, lastHw, bad, stopping, 
+                      getPending, inCall, is_rendering, set_pending, waitI, 
+                      setting, enable, gated, oInCall, callNew, fresh, re_on, 
+                      re_allow, re_got, re_trigs, k, z, v, g, res >>
 
 Z1 == /\ pc["Z"] = "Z1"
       /\ lock = "none"
@@ -449,7 +575,9 @@ Z1 == /\ pc["Z"] = "Z1"
       /\ UNCHANGED << is_running, triggered, frame_wanted, frame_id, 
                       last_emitted, sfid, waitT, waitF, alive, run, ntrig, 
                       ndeliv, lastHw, bad, stopping, getPending, inCall, 
-                      is_rendering, waitI, k, z, g, res >>
+                      is_rendering, waitI, enable, gated, oInCall, callNew, 
+                      fresh, re_on, re_allow, re_got, re_trigs, k, z, v, g, 
+                      res >>
 
 Z2 == /\ pc["Z"] = "Z2"
       /\ IF is_rendering
@@ -461,7 +589,9 @@ Z2 == /\ pc["Z"] = "Z2"
       /\ UNCHANGED << is_running, triggered, frame_wanted, frame_id, 
                       last_emitted, sfid, waitT, waitF, alive, run, ntrig, 
                       ndeliv, lastHw, bad, stopping, getPending, inCall, 
-                      is_rendering, set_pending, setting, k, z, g, res >>
+                      is_rendering, set_pending, setting, enable, gated, 
+                      oInCall, callNew, fresh, re_on, re_allow, re_got, 
+                      re_trigs, k, z, v, g, res >>
 
 Z2w == /\ pc["Z"] = "Z2w"
        /\ "Z" \notin waitI
@@ -469,8 +599,9 @@ Z2w == /\ pc["Z"] = "Z2w"
        /\ UNCHANGED << is_running, triggered, frame_wanted, frame_id, 
                        last_emitted, sfid, lock, waitT, waitF, alive, run, 
                        ntrig, ndeliv, lastHw, bad, stopping, getPending, 
-                       inCall, is_rendering, set_pending, waitI, setting, k, z, 
-                       g, res >>
+                       inCall, is_rendering, set_pending, waitI, setting, 
+                       enable, gated, oInCall, callNew, fresh, re_on, re_allow, 
+                       re_got, re_trigs, k, z, v, g, res >>
 
 Z2r == /\ pc["Z"] = "Z2r"
        /\ lock = "none"
@@ -479,10 +610,20 @@ Z2r == /\ pc["Z"] = "Z2r"
        /\ UNCHANGED << is_running, triggered, frame_wanted, frame_id, 
                        last_emitted, sfid, waitT, waitF, alive, run, ntrig, 
                        ndeliv, lastHw, bad, stopping, getPending, inCall, 
-                       is_rendering, set_pending, waitI, setting, k, z, g, res >>
+                       is_rendering, set_pending, waitI, setting, enable, 
+                       gated, oInCall, callNew, fresh, re_on, re_allow, re_got, 
+                       re_trigs, k, z, v, g, res >>
 
 Z3 == /\ pc["Z"] = "Z3"
       /\ set_pending' = set_pending - 1
+      /\ IF v /\ ~enable /\ is_running
+            THEN /\ re_on' = TRUE
+                 /\ re_got' = 0
+                 /\ re_trigs' = 0
+                 /\ re_allow' = 2 + (IF fresh >= 3 THEN 0 ELSE 1)
+            ELSE /\ TRUE
+                 /\ UNCHANGED << re_on, re_allow, re_got, re_trigs >>
+      /\ enable' = v
       /\ waitI' = {}
       /\ lock' = "none"
       /\ setting' = FALSE
@@ -491,35 +632,46 @@ Z3 == /\ pc["Z"] = "Z3"
       /\ UNCHANGED << is_running, triggered, frame_wanted, frame_id, 
                       last_emitted, sfid, waitT, waitF, alive, run, ntrig, 
                       ndeliv, lastHw, bad, stopping, getPending, inCall, 
-                      is_rendering, k, g, res >>
+                      is_rendering, gated, oInCall, callNew, fresh, k, v, g, 
+                      res >>
 
-Setter == Z0 \/ Z1 \/ Z2 \/ Z2w \/ Z2r \/ Z3
+Setter == Z0 \/ Zc \/ Zt \/ Z1 \/ Z2 \/ Z2w \/ Z2r \/ Z3
 
 G0 == /\ pc["G"] = "G0"
       /\ IF g < MaxGet /\ run <= Runs
             THEN /\ is_running \/ run > Runs
                  /\ IF run > Runs
                        THEN /\ pc' = [pc EXCEPT !["G"] = "GX"]
-                            /\ UNCHANGED inCall
+                            /\ UNCHANGED << inCall, oInCall, callNew >>
                        ELSE /\ inCall' = TRUE
+                            /\ IF Toggle
+                                  THEN /\ oInCall' = TRUE
+                                       /\ callNew' = TRUE
+                                  ELSE /\ TRUE
+                                       /\ UNCHANGED << oInCall, callNew >>
                             /\ pc' = [pc EXCEPT !["G"] = "G1"]
             ELSE /\ pc' = [pc EXCEPT !["G"] = "GX"]
-                 /\ UNCHANGED inCall
+                 /\ UNCHANGED << inCall, oInCall, callNew >>
       /\ UNCHANGED << is_running, triggered, frame_wanted, frame_id, 
                       last_emitted, sfid, lock, waitT, waitF, alive, run, 
                       ntrig, ndeliv, lastHw, bad, stopping, getPending, 
-                      is_rendering, set_pending, waitI, setting, k, z, g, res >>
+                      is_rendering, set_pending, waitI, setting, enable, gated, 
+                      fresh, re_on, re_allow, re_got, re_trigs, k, z, v, g, 
+                      res >>
 
 G1 == /\ pc["G"] = "G1"
       /\ IF ~is_running
             THEN /\ res' = "err"
+                 /\ oInCall' = FALSE
                  /\ pc' = [pc EXCEPT !["G"] = "G5"]
             ELSE /\ pc' = [pc EXCEPT !["G"] = "G2"]
-                 /\ res' = res
+                 /\ UNCHANGED << oInCall, res >>
       /\ UNCHANGED << is_running, triggered, frame_wanted, frame_id, 
                       last_emitted, sfid, lock, waitT, waitF, alive, run, 
                       ntrig, ndeliv, lastHw, bad, stopping, getPending, inCall, 
-                      is_rendering, set_pending, waitI, setting, k, z, g >>
+                      is_rendering, set_pending, waitI, setting, enable, gated, 
+                      callNew, fresh, re_on, re_allow, re_got, re_trigs, k, z, 
+                      v, g >>
 
 G2 == /\ pc["G"] = "G2"
       /\ lock = "none"
@@ -530,7 +682,8 @@ G2 == /\ pc["G"] = "G2"
       /\ UNCHANGED << is_running, triggered, frame_id, last_emitted, sfid, 
                       waitT, waitF, alive, run, ntrig, ndeliv, lastHw, bad, 
                       stopping, inCall, is_rendering, set_pending, waitI, 
-                      setting, k, z, g, res >>
+                      setting, enable, gated, oInCall, callNew, fresh, re_on, 
+                      re_allow, re_got, re_trigs, k, z, v, g, res >>
 
 G3 == /\ pc["G"] = "G3"
       /\ IF is_running /\ last_emitted >= frame_id
@@ -542,7 +695,9 @@ G3 == /\ pc["G"] = "G3"
       /\ UNCHANGED << is_running, triggered, frame_wanted, frame_id, 
                       last_emitted, sfid, waitT, alive, run, ntrig, ndeliv, 
                       lastHw, bad, stopping, getPending, inCall, is_rendering, 
-                      set_pending, waitI, setting, k, z, g, res >>
+                      set_pending, waitI, setting, enable, gated, oInCall, 
+                      callNew, fresh, re_on, re_allow, re_got, re_trigs, k, z, 
+                      v, g, res >>
 
 G3w == /\ pc["G"] = "G3w"
        /\ ~waitF
@@ -550,8 +705,9 @@ G3w == /\ pc["G"] = "G3w"
        /\ UNCHANGED << is_running, triggered, frame_wanted, frame_id, 
                        last_emitted, sfid, lock, waitT, waitF, alive, run, 
                        ntrig, ndeliv, lastHw, bad, stopping, getPending, 
-                       inCall, is_rendering, set_pending, waitI, setting, k, z, 
-                       g, res >>
+                       inCall, is_rendering, set_pending, waitI, setting, 
+                       enable, gated, oInCall, callNew, fresh, re_on, re_allow, 
+                       re_got, re_trigs, k, z, v, g, res >>
 
 G3r == /\ pc["G"] = "G3r"
        /\ lock = "none"
@@ -560,7 +716,9 @@ G3r == /\ pc["G"] = "G3r"
        /\ UNCHANGED << is_running, triggered, frame_wanted, frame_id, 
                        last_emitted, sfid, waitT, waitF, alive, run, ntrig, 
                        ndeliv, lastHw, bad, stopping, getPending, inCall, 
-                       is_rendering, set_pending, waitI, setting, k, z, g, res >>
+                       is_rendering, set_pending, waitI, setting, enable, 
+                       gated, oInCall, callNew, fresh, re_on, re_allow, re_got, 
+                       re_trigs, k, z, v, g, res >>
 
 G4 == /\ pc["G"] = "G4"
       /\ last_emitted' = frame_id
@@ -570,18 +728,23 @@ G4 == /\ pc["G"] = "G4"
                        THEN /\ bad' = "StaleFrameReturned"
                        ELSE /\ TRUE
                             /\ bad' = bad
-                 /\ UNCHANGED << ndeliv, lastHw >>
+                 /\ UNCHANGED << ndeliv, lastHw, fresh, re_got >>
             ELSE /\ res' = "data"
                  /\ bad' = (IF frame_id <= lastHw THEN "NotIncreasing"
-                            ELSE IF Enable /\ ndeliv + 1 > ntrig THEN "FrameWithoutTrigger" ELSE bad)
+                            ELSE IF gated /\ ndeliv + 1 > ntrig THEN "FrameWithoutTrigger"
+                            ELSE IF re_on /\ re_got + 1 > re_allow + re_trigs THEN "FrameWithoutTriggerAfterEnable" ELSE bad)
                  /\ lastHw' = frame_id
                  /\ ndeliv' = ndeliv + 1
+                 /\ re_got' = IF re_on THEN re_got + 1 ELSE re_got
+                 /\ fresh' = (IF Toggle /\ callNew /\ fresh < 3 THEN fresh + 1 ELSE fresh)
       /\ getPending' = FALSE
+      /\ oInCall' = FALSE
       /\ lock' = "none"
       /\ pc' = [pc EXCEPT !["G"] = "G5"]
       /\ UNCHANGED << is_running, triggered, frame_wanted, frame_id, sfid, 
                       waitT, waitF, alive, run, ntrig, stopping, inCall, 
-                      is_rendering, set_pending, waitI, setting, k, z, g >>
+                      is_rendering, set_pending, waitI, setting, enable, gated, 
+                      callNew, re_on, re_allow, re_trigs, k, z, v, g >>
 
 G5 == /\ pc["G"] = "G5"
       /\ g' = g + 1
@@ -590,7 +753,9 @@ G5 == /\ pc["G"] = "G5"
       /\ UNCHANGED << is_running, triggered, frame_wanted, frame_id, 
                       last_emitted, sfid, lock, waitT, waitF, alive, run, 
                       ntrig, ndeliv, lastHw, bad, stopping, getPending, 
-                      is_rendering, set_pending, waitI, setting, k, z, res >>
+                      is_rendering, set_pending, waitI, setting, enable, gated, 
+                      oInCall, callNew, fresh, re_on, re_allow, re_got, 
+                      re_trigs, k, z, v, res >>
 
 GX == /\ pc["G"] = "GX"
       /\ TRUE
@@ -598,7 +763,9 @@ GX == /\ pc["G"] = "GX"
       /\ UNCHANGED << is_running, triggered, frame_wanted, frame_id, 
                       last_emitted, sfid, lock, waitT, waitF, alive, run, 
                       ntrig, ndeliv, lastHw, bad, stopping, getPending, inCall, 
-                      is_rendering, set_pending, waitI, setting, k, z, g, res >>
+                      is_rendering, set_pending, waitI, setting, enable, gated, 
+                      oInCall, callNew, fresh, re_on, re_allow, re_got, 
+                      re_trigs, k, z, v, g, res >>
 
 Caller == G0 \/ G1 \/ G2 \/ G3 \/ G3w \/ G3r \/ G4 \/ G5 \/ GX
 
@@ -623,6 +790,10 @@ Bounded == sfid <= MaxFid
 StopReturns == stopping ~> ~stopping
 CallReleased == (inCall /\ stopping) ~> ~inCall
 SetReturns == setting ~> ~setting
+\* NOT a property of the code (DESIGN 15.6): with the trigger off and no set in progress the streamer can be asleep on
+\* trigger_ready - a disabling set fires the trigger before it stores the setting, and the streamer can consume that trigger
+\* and return to its gate in between. Checked only by the `stall` configuration, which expects the counterexample.
+NeverStalled == ~(is_running /\ ~enable /\ pc["Z"] \in {"Z0", "Done"} /\ pc["S"] = "L2w" /\ waitT /\ ~triggered)
 \* the buffers are never replaced while a frame is being rendered into them
 NoSetWhileRendering == ~(pc["Z"] = "Z3" /\ is_rendering)
 =============================================================================
